@@ -68,9 +68,9 @@ PROPS = {
 
 _E1 = {
     "C01": ("General DTL optimum and exhaustive enumerator",
-            "seeded histories of thl/exh solves and interleaved, cancellable generate_all "
-            "enumerations on shared input objects under simulator-chosen set orders, against a "
-            "brute-force DTL reference"),
+            "seeded histories of thl/exh solves, in-place re-pricing and interleaved, "
+            "cancellable generate_all enumerations on shared input objects under "
+            "simulator-chosen set orders, against a brute-force DTL reference"),
     "C02": ("Ordered super-reconciliation optimum",
             "seeded solve histories of ext_spfs/base_spfs under simulator-chosen orders (root "
             "orders come from toposort_all over sets) against a brute-force ordered-labelling "
@@ -160,9 +160,11 @@ PROPS["C12"] = {
     "thorough": _budget(960, 600, 1500),
     "technique": "deterministic simulation: the CLI run in-process as a pipeline of simulated "
                  "processes over a simulated file system, stdio and TeX peer, with short raw "
-                 "reads/writes, errno faults, clock jumps and per-process set-iteration seeds; "
+                 "reads/writes, errno faults, process kills with lost buffers, clock jumps, "
+                 "locale / warning-filter environments and per-process set-iteration seeds; "
                  "names, printed cost, ALL/ANY containment, draw acceptance and the error path "
-                 "checked on what the processes wrote",
+                 "checked on what the processes wrote; a sample is re-run as real child "
+                 "processes to validate the simulated process boundary",
     "level_text": "The command-line contract is about files, streams, exit status and the "
                   "hand-off between separate processes (reconcile all / any / draw) that a real "
                   "run would execute under different hash seeds; the simulator owns all of those. "
